@@ -61,6 +61,8 @@ impl Directory {
         crate::verif::maybe_fail(crate::verif::FaultSite::ListDir)?;
         for dir_entry_res in std::fs::read_dir(dir_path)? {
             let dir_entry = dir_entry_res?;
+            #[cfg(mrecordlog_verif)]
+            crate::verif::maybe_fail(crate::verif::FaultSite::ListDir)?;
             if !dir_entry.file_type()?.is_file() {
                 continue;
             }
